@@ -55,8 +55,12 @@ def _strings_case(job):
             prog = pt.Seq(pt.Pop(pt.Bytes("marker")), pt.Return(pt.Bytes(s) == pt.Bytes(s.encode("utf-8"))))
             teal = pt.compileTeal(prog, mode, version=v)
             # the literal must not break the line / statement structure: exactly the expected number of instructions
-            res = avm.run(teal, avm.Ctx(mode="Signature" if mode == pt.Mode.Signature else "Application"))
-            p = avm.parse(teal)
+            try:
+                res = avm.run(teal, avm.Ctx(mode="Signature" if mode == pt.Mode.Signature else "Application"))
+                p = avm.parse(teal)
+            except ValueError as ex:       # the emitted literal does not even lex as TEAL
+                bad.append((s, v, "emitted TEAL does not lex", str(ex)[:120], -1))
+                break
             if res.verdict != "approve" or len(p.ops) != 6:
                 bad.append((s, v, res.verdict, res.detail, len(p.ops)))
                 break
